@@ -46,41 +46,6 @@ def small_eval(e, env):
 
 
 
-def qr_shortcut_rule(chk, src):
-    """the `skip the QR` shortcut of _decompose_qr sets q = gamma, r = [[1]], p = [0]: shapes agree with q (R x K), r (K x C), p (C) only if gamma has one column"""
-    from ..syminterp import SymInterp, Sym
-    fi = src.func(SYM, "_decompose_qr")
-    from ..src import inline_adjacent_temps
-    fnode = inline_adjacent_temps(fi.node)
-    ifs = [n for n in ast.walk(fnode) if isinstance(n, ast.If) and ".shape" in unparse(n.test) and any("linalg.qr" in unparse(x) for x in n.body + n.orelse)]
-    if len(ifs) != 1:
-        raise AnalysisError(f"{fi.where}: QR / shortcut branch not found")
-    node = ifs[0]
-    qr_in_body = any("linalg.qr" in unparse(x) for x in node.body)
-    short = node.orelse if qr_in_body else node.body
-    # the matrix being factorised = first argument of the QR call; the three results = the names the QR call is unpacked into
-    qrcall = [x for st in (node.body if qr_in_body else node.orelse) for x in ast.walk(st) if isinstance(x, ast.Assign) and "linalg.qr" in unparse(x.value)]
-    if len(qrcall) != 1 or not isinstance(qrcall[0].targets[0], ast.Tuple) or len(qrcall[0].targets[0].elts) != 3:
-        raise AnalysisError(f"{fi.where}: `q, r, p = scipy.linalg.qr(gamma, ...)` not found")
-    GAMMA = unparse(qrcall[0].value.args[0])
-    NQ, NR, NP = (unparse(x) for x in qrcall[0].targets[0].elts)
-    asg = {unparse(s_.targets[0]): unparse(s_.value).replace(" ", "") for s_ in short if isinstance(s_, ast.Assign)}
-    shape_ok = asg.get(NQ) == GAMMA and asg.get(NR) in ("np.array([1]).reshape(1,1)", "np.ones((1,1))") and asg.get(NP) == "np.array([0])"
-    chk.ob("qr-shortcut-shape", "shortcut branch is q = gamma, r = [[1]], p = [0]", shape_ok, fi.where, asg, {"q": "gamma", "r": "1 x 1", "p": "[0]"}, line=node.lineno,
-           detail="the shortcut's shapes were re-derived for q = gamma (K = number of columns), r of shape (1, 1), p of length 1")
-    it = SymInterp(src, None, {})
-    bad = []
-    for r_ in (1, 2, 3, 7):
-        for c_ in (1, 2, 3, 7):
-            t = bool(it.ev(node.test, {GAMMA: Sym("gamma", shape=(r_, c_), ndim=2)}))
-            takes_short = (not t) if qr_in_body else t
-            if takes_short and c_ != 1:
-                bad.append(f"gamma of shape ({r_}, {c_}) takes the shortcut")
-    chk.ob("qr-shortcut-shape", "shortcut taken only for a single-column coefficient matrix", not bad, fi.where, bad[:3] or "16 shapes", "shortcut => gamma.shape[1] == 1", line=node.lineno,
-           detail="with more than one column r = [[1]] drops every column but the first: all terms whose right part is not the first unique right operator are lost "
-                  "(single left operator times several right operators, e.g. a one-site operator coupled to many sites): " + (bad[0] if bad else ""))
-
-
 def _perm_of_moveaxis(n, a, b):
     order = list(range(n))
     x = order.pop(a % n)
@@ -481,8 +446,13 @@ def run(chk):
     narrow_arith_rule(chk, src)
     chk.rule("factor-dtype", "arrays receiving factor-derived values do not have a fixed real dtype", 2)
     chk.rule("layout", "site tensor layout (left, row, column, right): builder permutation and provenance of the local matrices (abstract run), dense readers, symbolic matrix indexing", 4)
-    chk.rule("qr-shortcut-shape", "_decompose_qr: the branch that skips the QR factorisation is shape-consistent and guarded by `one column`", 2)
-    qr_shortcut_rule(chk, src)
+    chk.rule("qr-shortcut-shape", "_decompose_qr on single-column and single-row coefficient matrices (abstract runs on exact data): the result reproduces every coefficient, "
+             "so the branch that skips the QR factorisation is taken for one column only", 4)
+    chk.rule("decomposition-exact", "_decompose_graph (both matchings) and _decompose_qr (scipy's factorisation as an exact oracle) on small exact coefficient tables: out operators x new table x "
+             "new factors reproduce the table given, entry by entry", 20)
+    from . import decompose_rules as DR
+    DR.qr_rule(chk, src, "decomposition-exact", rule_shortcut="qr-shortcut-shape")
+    DR.graph_rule(chk, src, "decomposition-exact")
     chk.rule("split-order", "Op.split_elementary keeps intra-site symbol order, sites ascending; duplicates merged by summing factors", 4)
     chk.rule("term-table", "_terms_to_table: row i and coefficient i are those of term i; constant last, only when non-zero (abstract run on terms with equal operator strings)", 1)
     s = sp.Symbol("s")
@@ -602,7 +572,18 @@ def run(chk):
                 data = c.args[0] if c.args else None
                 if data is None:
                     continue
-                lens = {unparse(x.args[0]) for x in ast.walk(data) if isinstance(x, ast.Call) and unparse(x.func) == "len" and x.args}
+                def lens_of(e, depth=0, fi=fi):
+                    """containers whose length enters the expression, also through local names with one definition"""
+                    from ..src import defs_of
+                    out = {unparse(x.args[0]) for x in ast.walk(e) if isinstance(x, ast.Call) and unparse(x.func) == "len" and x.args}
+                    if depth < 2:
+                        for x in ast.walk(e):
+                            if isinstance(x, ast.Name) and isinstance(x.ctx, ast.Load):
+                                d = [y for y in defs_of(fi.node, x.id) if isinstance(y, ast.expr)]
+                                if len(d) == 1:
+                                    out |= lens_of(d[0], depth + 1)
+                    return out
+                lens = lens_of(data)
                 # the table of primary-operator indices: bounded by the number of primary operators
                 if not lens and isinstance(data, ast.Name):
                     src_names = {data.id}
